@@ -105,9 +105,22 @@ def declare(base, d, flags, leaf="int", mutual=False):
               "__options__": Options(max_depth=d, **flags) if (d is not None or flags) else Options(),
               "opt": None, "direct": None, "lst": Field(default_factory=list), "dct": Field(default_factory=dict),
               "dfl": Field(default_factory=dict), "tup": None, "tvar": (), "uni": None, "uni2": 0}
+        if not mutual:
+            # a union of data classes chosen by Field(discriminator=...): the recursion closes through the member 'Br' (one more level)
+            o2 = Options(max_depth=d, **flags) if (d is not None or flags) else Options()
+            br = type(basecls)(name + "Br", (basecls,), {"__annotations__": {"kind": typing.Literal["br"], "node": name}, "node": None,
+                                                         "__module__": "vmon_generated", "__qualname__": name + "Br", "__options__": o2})
+            lf = type(basecls)(name + "Lf", (basecls,), {"__annotations__": {"kind": typing.Literal["lf"], "w": int}, "w": 0,
+                                                         "__module__": "vmon_generated", "__qualname__": name + "Lf", "__options__": o2})
+            for c in (br, lf):
+                setattr(GENERATED, c.__name__, c)
+            ann["disc"] = typing.Union[lf, br, None]
+            ns["disc"] = Field(discriminator="kind", default=None)
         cls = type(basecls)(name, (basecls,), ns)
         setattr(GENERATED, name, cls)
         made.append(cls)
+        if not mutual:
+            made += [br, lf]
     return made[0], made
 
 
@@ -139,6 +152,8 @@ def attach(parent, link, pos, child, leafv):
     elif link == "dfl":
         key = {0: 0.5, 1: 2.0, "last": 1000.0, 2: 0.0}[pos]
         parent[link] = {key: child}
+    elif link == "disc":
+        parent[link] = {"kind": "br", "node": child}    # the chosen member is a data-class level of its own
     elif link == "tup":
         parent[link] = (1, child)
     elif link == "tvar":
@@ -163,6 +178,14 @@ def make_case(i, rng, tier):
             k = max(1, d + rng.choice([-1, 0, 0, 1, 1]))
         path = [(rng.choice(LINKS), rng.choice([0, 1, "last", 2])) for _ in range(k - 1)]
         mutual = rng.random() < 0.25
+        if not mutual and rng.random() < 0.2:
+            # some links go through a discriminated union member (each adds a data-class level: k counts levels)
+            path = [(("disc", 0) if rng.random() < 0.5 else p) for p in path]
+            extra = sum(1 for p in path if p[0] == "disc")
+            while extra and d is not None and len(path) + 1 + extra > d + 2 and path:
+                path.pop()
+                extra = sum(1 for p in path if p[0] == "disc")
+            k = len(path) + 1
         if mutual:
             path = [(("direct", 0) if lv % 2 == 0 else p) for lv, p in enumerate(path)]
         return {"kind": "exact", "base": rng.choice(["Schema", "Schema", "DataClass"]), "d": d, "k": k, "path": path,
@@ -215,6 +238,7 @@ def run_case(case, ctx):
         return
     try:
         data, levels = chain(path, 1)
+        k = k + sum(1 for p in path if p[0] == "disc")   # input depth in data-class levels
         cyc = case["cyclic"]
         tl = case.get("text_level")
         if tl is not None and not cyc and tl < len(levels) and path[tl - 1][0] in ("opt", "direct", "lst", "dct", "tup", "tvar"):
